@@ -50,6 +50,16 @@ def gen_scenarios(seed, tier):
         d = sc.gen_stack(rng, i, kinds=["retry"], max_layers=1, ops=("submit", "cancel", "sleep", "result", "addcb"),
                          bases=("simpool1", "simpool2", "simpool2", "simsync"), tail=(60.0,), shutdown_p=0.0)
         d["layers"] = [sc.gen_layer(rng, "retry")]
+        if i % 7 == 6 and not d["layers"][0][1].get("custom"):
+            # boundary values that are legal and mean what they say: no delay, a cap of 0, a single attempt, nothing retried
+            pp = d["layers"][0][1]
+            which = rng.choice(["sleep", "max_sleep", "max_attempts", "exception_base", "exponent"])
+            if which == "exception_base":
+                pp["exception_base"] = []
+            elif which == "exponent":
+                pp["exponent"] = 0
+            else:
+                pp[which] = 0
         if i % 3 == 0:
             d = concurrent_retries(rng, i, d)
         yield d
@@ -161,6 +171,16 @@ def monitors(s, ctx, desc):
             if key is not None:
                 pol_calls.setdefault(key, []).append(e[3])
         elif k == "policy<" and e[2] == "sleep_time":
+            if not custom and isinstance(e[3], int) and e[3] >= 1:
+                # the delay the library's own policy answers is the configured one: min(sleep * exponent^(attempt-1), max_sleep)
+                pp = layer[1]
+                try:
+                    want = min(pp.get("sleep", 1.0) * (pp.get("exponent", 2.0) ** (e[3] - 1)), pp.get("max_sleep", 120))
+                    if abs(float(e[4]) - float(want)) > 1e-9:
+                        hits.append(hit("C05/backoff-not-as-configured", "sleep_time(attempt %d) answered %r; sleep=%r exponent=%r max_sleep=%r give %r"
+                                        % (e[3], e[4], pp.get("sleep"), pp.get("exponent"), pp.get("max_sleep"), want)))
+                except (OverflowError, TypeError, ValueError):
+                    pass
             key = cur_cb.get(t)
             if key is not None:
                 sleep_ans[key] = float(e[4])
